@@ -537,6 +537,61 @@ let handle (r : reader) : unit =
       List.iter out_n ids;
       out_s " |";
       out_ranges u
+  | "NB" ->
+      (* NB <4|8> d n c* -> per cell: k n1..nk *)
+      let conn = next_int r in
+      let d = next_int r in
+      let cs = next_list r next_n in
+      let rec nat_of_int i = if i <= 0 then O else S (nat_of_int (i - 1)) in
+      let dn = nat_of_int d in
+      out_s "OK";
+      List.iter (fun c -> let l = (if conn = 4 then nb4 dn c else nb8 dn c) in out_int (List.length l); List.iter out_n l) cs
+  | "HPXOP" ->
+      (* HPXOP <exp|con|ext|int> w d ranges *)
+      let op = next r in
+      let w = next_n r in
+      let d = next_int r in
+      let l = next_ranges r in
+      let rec nat_of_int i = if i <= 0 then O else S (nat_of_int (i - 1)) in
+      let nb = nb8 (nat_of_int d) in
+      let dn = n_of_int d in
+      let res = (match op with
+        | "exp" -> expanded_spec nb w dn l
+        | "con" -> contracted_spec nb w dn l
+        | "ext" -> ext_border_spec nb w dn l
+        | _ -> int_border_spec nb w dn l) in
+      out_s "OK"; out_n dn; out_ranges res
+  | "SPLIT" ->
+      (* SPLIT <4|8> w d M nparts part* -> YES | NO | UNKNOWN *)
+      let conn = next_int r in
+      let w = next_n r in
+      let d = next_int r in
+      let m = next_ranges r in
+      let parts = next_list r next_ranges in
+      let rec nat_of_int i = if i <= 0 then O else S (nat_of_int (i - 1)) in
+      let nb = (if conn = 4 then nb4 (nat_of_int d) else nb8 (nat_of_int d)) in
+      let sh = shift Hpx w (n_of_int d) in
+      (match split_okb nb (cells_of sh m) (List.map (cells_of sh) parts) with
+       | Yes -> out_s "OK YES" | No -> out_s "OK NO" | Unknown -> out_s "OK UNKNOWN")
+  | "FILL" ->
+      let w = next_n r in
+      let d = next_int r in
+      let m = next_ranges r in
+      let o = next_ranges r in
+      let rec nat_of_int i = if i <= 0 then O else S (nat_of_int (i - 1)) in
+      let sh = shift Hpx w (n_of_int d) in
+      out_s "OK"; out_bool (fill_okb (nb8 (nat_of_int d)) (cells_of sh m) (cells_of sh o))
+  | "TFOP" ->
+      (* TFOP <exp|con> q w d ranges *)
+      let op = next r in
+      let q = next_qty r in
+      let w = next_n r in
+      let d = next_n r in
+      let l = next_ranges r in
+      let u = N.pow (n_of_int 2) (shift q w d) in
+      let ncm = n_cells_max q w in
+      out_s "OK"; out_n d;
+      out_ranges (if op = "exp" then tf_expanded u ncm l else tf_contracted u ncm l)
   | "EXPR" ->
       let q = next_qty r in
       let w = next_n r in
